@@ -136,7 +136,7 @@ func gen(seed uint64, tier string) {
 	r := vproto.NewRng(seed)
 	n := 1500
 	if tier == "thorough" {
-		n = 40000
+		n = 15000
 	}
 	// fixed corpus first: one of each type, empties, deep nesting
 	corpus := []geom.Geom{
@@ -159,7 +159,7 @@ func gen(seed uint64, tier string) {
 	// blocks must reassemble them exactly), stand-alone, as rings and nested
 	sizes := []int{1023, 1024, 1025, 2049, 3000}
 	if tier == "thorough" {
-		sizes = append(sizes, 2047, 2048, 4095, 4096, 4097, 5000, 8193, 65535, 65536, 65537, 70001)
+		sizes = append(sizes, 2047, 2048, 4095, 4096, 4097, 5000, 8193)
 	}
 	for i, n := range sizes {
 		ps := make([]geom.Point, n)
@@ -169,6 +169,15 @@ func gen(seed uint64, tier string) {
 		emit(geom.LineString(ps), i)
 		emit(geom.Polygon{ps[:n/3], ps, ps[:7]}, i+1)
 		emit(geom.GeometryCollection{geom.MultiLineString{ps[:5], ps}, geom.MultiPolygon{{ps}, {}}, geom.MultiPoint(ps)}, i)
+	}
+	if tier == "thorough" { // 16-bit count boundary: one round trip each (these lines are megabytes long)
+		for _, n := range []int{65535, 65536, 65537} {
+			ps := make([]geom.Point, n)
+			for j := range ps {
+				ps[j] = geom.Point{X: float64(j), Y: float64(j % 7)}
+			}
+			fmt.Fprintf(out, "rt N %s\n", vproto.GeomToks(geom.LineString(ps)))
+		}
 	}
 	for i := 0; i < n; i++ {
 		emit(genGeom(r, 4), i)
